@@ -37,7 +37,10 @@ RULE = (
     "resumed store, default logger) and as_completed; extra input kinds: in-memory objects carrying their own "
     "source (not proxied) and raw python values, both including falsy ones. Parallel histories use "
     "apply_to/as_completed(parallel=True, par_kw={'max_workers': w[, 'chunksize': c]}) with w in {1,2,3,8}, c in "
-    "{1,2,3,5} and input counts hitting every residue mod c (incl. a single input and n=c+1), and per-input completion "
+    "{1,2,3,5} and input counts hitting every residue mod c (incl. a single input and n=c+1), histories with many "
+    "inputs per worker (n >= 5w up to 80, w in 2..4, mostly instant tasks plus bursts sharing a deadline) through each "
+    "writer, direct exactly-once checks of cogent3.util.parallel.as_completed/imap/map over 0,1,2,4w,4w+1,8w+3,60 "
+    "items, and per-input completion "
     "deadlines computed from a target completion permutation (identity, reverse, first-submitted-last, "
     "last-submitted-first, evens-then-odds, random), released by a gate once the worker processes have picked up "
     "their first task; the realised order is read from the history (yield events) and each parallel history is "
@@ -116,6 +119,10 @@ def gen_cases(rng, tier):
         for (w, t, n, store, entry, inputs), c in zip(grid, grid_chunks):
             cases.append({"kind": "parallel", "seed": rng.randrange(2**32), "workers": w, "target": t, "n": n, "store": store, "entry": entry, "inputs": inputs, "chunksize": c})
         cases.extend(chunk_cases(rng, 4, CHUNK_TABLE_QUICK))
+        # placed so that the four harness workers get similar loads
+        cases.extend(many_cases(rng, [(2, 60, "dir", "str"), (3, 48, "sql", "member"), (4, 64, "fasta", "path")]))
+        cases.append({"kind": "par-direct", "workers": 3, "reps": 2, "mixed": True})
+        cases.append({"kind": "par-direct", "workers": 2, "reps": 2, "mixed": False})
         for _ in range(20):
             cases.append({"kind": "serial", "seed": rng.randrange(2**32), "n": 5, "max_inputs": 10})
     else:
@@ -138,6 +145,13 @@ def gen_cases(rng, tier):
             )
         cases.extend(chunk_cases(rng, 8))
         cases.extend(chunk_cases(rng, 8))
+        spec = []
+        for i in range(15):
+            w = 2 + i % 3
+            spec.append((w, rng.randint(5 * w, 80), ["dir", "sql", "fasta"][i % 3], rng.choice(["str", "path", "member", "dstore", "items"])))
+        cases.extend(many_cases(rng, spec))
+        for w in (2, 3, 4, 2, 3, 4):
+            cases.append({"kind": "par-direct", "workers": w, "reps": 6, "mixed": True})
         for _ in range(100):
             cases.append({"kind": "serial", "seed": rng.randrange(2**32), "n": 10, "max_inputs": 24})
     cases.append({"kind": "direct", "seed": rng.randrange(2**32), "n": 40 if tier == "quick" else 400})
@@ -161,6 +175,16 @@ CHUNK_TABLE = [(1, 1), (2, 1), (1, 2), (2, 2), (3, 2), (1, 3), (3, 3), (4, 3), (
 
 # quick: only what the 12 grid histories (n, chunksize) do not already cover
 CHUNK_TABLE_QUICK = [(2, 1), (1, 2), (3, 2), (1, 3), (3, 3), (4, 3), (1, 5), (8, 5)]
+
+
+def many_cases(rng, spec):
+    """many inputs relative to the workers (n >= 5 * max_workers), most of them instant: dispatch has to keep going
+    while several tasks finish between two looks of the parent"""
+    out = []
+    for w, n, store, inputs in spec:
+        out.append({"kind": "parallel", "seed": rng.randrange(2**32), "workers": w, "target": "bursts", "n": n,
+                    "store": "dir" if inputs == "items" and store == "fasta" else store, "entry": "apply_to", "inputs": inputs, "chunksize": None})  # fmt: skip
+    return out
 
 
 def chunk_cases(rng, nbatches, table=None):
@@ -1209,7 +1233,7 @@ def realised_order(obs):
 
 
 def n_class(n):
-    return "1" if n == 1 else "2-4" if n <= 4 else "5-8" if n <= 8 else "9-16" if n <= 16 else "17-24"
+    return "1" if n == 1 else "2-4" if n <= 4 else "5-8" if n <= 8 else "9-16" if n <= 16 else "17-24" if n <= 24 else "25-48" if n <= 48 else "49-80"
 
 
 def pattern_class(W, plan, keys):
@@ -1238,11 +1262,14 @@ def case_parallel(res, case):
         s_out = check_history(res, W, ser, plan, "serial", replay=replay)
         res.count("histories:serial")
         n = len(ser["keys"])
+        bursts = case["target"] == "bursts"
         order = target_order(case["target"], n, rng)
+        # bursts: most tasks are instant, the others share a few deadlines, so that several tasks complete together
+        levels = [rng.choice([0, 0, 0, 1, 2, 3]) for _ in range(n)]
         gap = case.get("gap", GAP0)
         par = None
         for attempt in range(4):
-            d = deadlines(order, gap)
+            d = [round(gap * lv, 4) for lv in levels] if bursts else deadlines(order, gap)
             par = run_history(W, world, plan, parallel=True, workers=workers, delays=d, chunksize=case.get("chunksize"))
             res.count("histories:parallel")
             got = realised_order(par)
@@ -1257,6 +1284,8 @@ def case_parallel(res, case):
         res.count(f"pair:workers={workers}/{oc}")
         res.count("order:" + hashlib.sha1(repr((n, got)).encode()).hexdigest()[:10])
         res.count("parallel:target-realised" if got == predict(d, workers) else "parallel:target-not-realised")
+        if n > 4 * workers:
+            res.count(f"many-inputs:workers={workers}/{W['store'] if has_store(W) else '-'}/" + ("n>8w" if n > 8 * workers else "n>4w"))
         c = case.get("chunksize")
         res.count(f"chunksize:{c}/n-mod-c={n % c}" + ("/single-input" if n == 1 else "/n=c+1" if n == c + 1 else "") if c else "chunksize:not-passed")
         pids = {e["pid"] for e in par["events"] if e["ev"] == "start"}
@@ -1587,6 +1616,59 @@ def case_real(res, case):
         shutil.rmtree(base, ignore_errors=True)
 
 
+def case_par_direct(res, case):
+    """cogent3.util.parallel on its own: every input is handed to f exactly once. as_completed: the multiset of results
+    equals the multiset of f(inputs); imap / map: additionally in input order (documented)."""
+    import operator
+    from collections import Counter
+
+    from cogent3.util import parallel as PAR
+
+    w = case["workers"]
+    sizes = [0, 1, 2, 4 * w, 4 * w + 1, 8 * w + 3, 60]
+    for rep_ in range(case["reps"]):
+        for n in sizes if rep_ == 0 else sizes[-3:]:
+            items = list(range(1000 + rep_, 1000 + rep_ + n))
+            want = [operator.neg(x) for x in items]
+            for name in ("as_completed", "imap", "map") if rep_ == 0 and n in (0, 1, 4 * w + 1, 60) else ("as_completed",):
+                res.evals += 1
+                res.count(f"util.parallel:{name}")
+                try:
+                    got = list(getattr(PAR, name)(operator.neg, items, max_workers=w))
+                except ValueError as e:
+                    if n == 0 and name != "as_completed" and "chunksize" in str(e):
+                        res.refused += 1  # imap/map decline an empty series (ValueError: chunksize must be >= 1)
+                        continue
+                    res.witness(exc_mechanism(f"C14/util.parallel/{name}", e), n=n, workers=w, error=repr(e)[:200], replay_case=case)
+                    continue
+                except Exception as e:  # noqa: BLE001
+                    res.witness(exc_mechanism(f"C14/util.parallel/{name}", e), n=n, workers=w, error=repr(e)[:200], replay_case=case)
+                    continue
+                if n > 4 * w:
+                    res.sig("util.parallel", name, w, "n>8w" if n > 8 * w else "n>4w")
+                cg, cw = Counter(got), Counter(want)
+                if cg != cw:
+                    cls = "inputs-never-processed" if cw - cg and not cg - cw else "input-processed-more-than-once" if cg - cw and not cw - cg else "results-are-not-f-of-the-inputs"
+                    res.witness(f"C14/util.parallel/{name}/{cls}", n=n, workers=w, missing=sorted((cw - cg).elements())[:10], extra=sorted((cg - cw).elements())[:10], n_results=len(got), replay_case=case)
+                elif name != "as_completed" and got != want:
+                    res.witness(f"C14/util.parallel/{name}/results-not-in-input-order", n=n, workers=w, got=got[:12], replay_case=case)
+    # the same with tasks of mixed duration (a harness function: every 5th input sleeps), as_completed only
+    if not case.get("mixed"):
+        return
+    n = 8 * w + 3
+    items = list(range(n))
+    res.evals += 1
+    res.count("util.parallel:as_completed/mixed-durations")
+    try:
+        got = list(PAR.as_completed(A.par_task, items, max_workers=w))
+    except Exception as e:  # noqa: BLE001
+        res.witness(exc_mechanism("C14/util.parallel/as_completed", e), n=n, workers=w, error=repr(e)[:200], replay_case=case)
+        return
+    if Counter(got) != Counter(A.par_task(x, nap=False) for x in items):
+        miss = sorted(set(items) - {g[0] for g in got})
+        res.witness("C14/util.parallel/as_completed/inputs-never-processed" if miss else "C14/util.parallel/as_completed/results-are-not-f-of-the-inputs", n=n, workers=w, missing=miss[:10], n_results=len(got), replay_case=case)
+
+
 def run_case(case):
     res = Result()
     kind = case["kind"]
@@ -1605,6 +1687,8 @@ def run_case(case):
         case_fixed_dotted(res, case)
     elif kind == "real":
         case_real(res, case)
+    elif kind == "par-direct":
+        case_par_direct(res, case)
     return res
 
 
@@ -1625,6 +1709,9 @@ def required(counters, tier):
             miss.append(f"outcome class '{m}' never decided")
     for k in ("histories:serial", "histories:parallel", "pass-through:observed", "direct:not-completed-through-chain", "resume:kept-completed", "writer-level:reached"):
         if counters.get(k, 0) < 1:
+            miss.append(f"{k} never reached")
+    for k in ("many-inputs:", "util.parallel:as_completed", "util.parallel:imap", "util.parallel:map"):
+        if not any(x.startswith(k) for x in counters):
             miss.append(f"{k} never reached")
     for c in CHUNKSIZES:
         for r in range(c):
